@@ -401,7 +401,11 @@ def rule_order(run, prog):
     model = ErrorsModel(prog)
     bad = None
     try:
-        for order in ([(5, 1), (3, 2), (3, 1)], [(1, 1), (2, 1), (1, 2)], [(2, 2), (2, 2), (1, 9)], [(9, 9)], []):
+        # (small positions, and positions whose columns / lines exceed any packing constant a key function might use:
+        #  a line wider than 1000 / 10^4 / 10^6 columns, a file longer than 65536 lines)
+        for order in ([(5, 1), (3, 2), (3, 1)], [(1, 1), (2, 1), (1, 2)], [(2, 2), (2, 2), (1, 9)], [(9, 9)], [],
+                      [(3, 10), (1, 2414), (1, 82)], [(2, 1), (1, 100001), (1, 1000)], [(70000, 1), (2, 5000000), (65536, 3)],
+                      [(1, 10 ** 9), (2, 1)]):
             for late in (False, True):
                 ev = model.evaluator()
                 errors = model.new_errors(ev)
